@@ -45,8 +45,10 @@ def run(ctx):
     # small sessions: ONE set of argument objects (float64 / integer arrays, nested lists) shared by all calls; half of them overwritten in
     # place with doubled coordinates and evaluated again
     for i, sp in enumerate(specs[ns[0] + ns[1]:]):
-        sp["container"] = [None, "array", "int", "list", "intlist", "array"][i % 6]
+        sp["container"] = laws.pick_container(rng, sp, [None, "array", "int", "list", "intlist", "uint8", "int16", "uint16", "int8", "int32"])
         sp["edit"] = int(bool(sp["container"]) and i % 2 == 1)
+        if sp["container"] in laws.NARROW:
+            sp["edit"] = 0      # (doubling in place could leave the dtype\'s range)
     laws.run_sessions(ctx, specs, "V")
 
 
